@@ -71,7 +71,7 @@ ACB = "ActionResult with <=%d output files (inline or not), <=1 output directory
 h("VerifValidatedAC", D, AC, ACB % 1, "GetValidatedActionResult: hit iff every referenced blob is present with its declared size; absence is a miss, not an error; a hit touches every local referenced blob", unwind=16)
 h("VerifValidatedACMixed", D, AC, "stored result with two output files: the first with inline contents, the second by digest (present with matching size, with another size, or absent)", "an inlined output file does not hide the dependency on a later output file", unwind=16)
 h("VerifValidatedACDir", D, AC, "ActionResult with one output directory whose Tree has one root file and one child file, optional stdout/stderr", "as VerifValidatedAC (Tree path)", unwind=16)
-h("VerifValidatedAC2", D, AC, ACB % 2, "as VerifValidatedAC", unwind=16)
+h("VerifValidatedAC2", D, AC, "ActionResult with <=2 output files (each inline or by digest), optional stdout/stderr digests, no output directory; each referenced blob in the index or not, indexed and declared sizes symbolic", "as VerifValidatedAC (two files)", unwind=16)
 h("VerifValidatedACProxy", D, AC, "one output file + optional stdout digest, backend with arbitrary verdict, 2 containsWorker goroutines + the wait goroutine, <=1 preemption, every choice of a ready select case explored", "hit only if every blob is local or vouched for by the backend (fail-fast search)", unwind=16, switches=1, timeout_s=1500, races=True)
 
 FM = ["zz_verif_findmissing.go"]
@@ -182,7 +182,7 @@ P = {
  "C05": (["VerifLRUAdd3", "VerifLRUReserve3", "VerifLRUGet", "VerifGetAC", "VerifContains", "VerifFindMissing3"], ["VerifLRUAdd4", "VerifLRUReserve4", "VerifGetCasZstd", "VerifGetCasRaw"], [FSM], ["atime order after restart (C09)", "more live entries than the bound"]),
  "C06": (["VerifValidatedAC", "VerifValidatedACMixed", "VerifValidatedACDir", "VerifValidatedACProxy", "VerifGetActionResultMiss"], ["VerifValidatedAC2"], [FSM, "proto.Unmarshal by identity: stored bytes decode to the registered message"], ["real protobuf decoding", "races between the check and a concurrent eviction"]),
  "C07": (["VerifConcReadersCorrupt", "VerifConcReadOverwrite", "VerifConcReadOverwriteEvict", "VerifConcPutPut", "VerifConcCorruptReadPut", "VerifFindMissingProxy1", "VerifFindMissingBatchProxy", "VerifBytestreamWrite2"], ["VerifConcPutPutDeep", "VerifConcReadOverwriteDeep", "VerifValidatedACProxy"], [FSM, HASH, CODEC, "sequentially consistent interleaving of goroutines at the scheduling points (mutex acquisition, file-system step, channel operation, go statement); a blocked goroutine hands over round-robin"],
-         ["data races on the abstract byte objects and inside the environment models (the happens-before obligations cover pointer loads/stores and map operations of repository and dependency code; weak-memory effects are not modelled)", "more than two concurrent requests, more preemptions than the bound", "backend fetches and the FindMissing worker pool under preemption (decided for their own schedules in C10/C12)", "the gRPC/HTTP handlers above the disk layer"]),
+         ["data races on the abstract byte objects and inside the environment models (the happens-before obligations cover pointer loads/stores and map operations of repository and dependency code; weak-memory effects are not modelled)", "more than three goroutines per scenario, more preemptions than the bound, round-robin hand-over at blocking points", "evictions under space pressure and backend fetches racing with requests", "handlers above the disk layer other than ByteStream.Write and the FindMissing/validated-AC worker pool"]),
  "C08": (["VerifCrashPutCasRaw", "VerifCrashPutAC", "VerifCrashPutCasZstd", "VerifCrashPutCasZstdBad", "VerifCrashFetchCasZstd", "VerifCrashFetchCasRaw", "VerifCrashFetchAC"], [], [FSM, HASH, CODEC], ["power loss, write reordering, fsync (process-kill semantics only)", "kill during start-up migration", "kill during overwrite/eviction (uploads and backend fetches into an empty cache only)"]),
  "C09": (["VerifLoad2", "VerifLoadDup", "VerifLoadExtras", "VerifGetCasRawInZstdMode", "VerifGetCasZstdInRawMode"], ["VerifLoad3", "VerifGetCasRawInZstdModeAsZstd", "VerifGetCasZstdInRawModeAsZstd"], [FSM, "access times are the model's (distinct) integers"], ["real readdir order and atime semantics (relatime)", "legacy v0/v1 layouts (migration code is executed only on a current layout)", "more than 3 files", "schedules other than round-robin"]),
  "C10": (["VerifFindMissing3", "VerifFindMissingProxy1", "VerifFindMissingBatch", "VerifFindMissingBatchProxy", "VerifFilterNonNil", "VerifContains", "VerifProxyGetCasZstd"], ["VerifFindMissing4", "VerifFindMissingProxy2", "VerifFindMissingBatch2"], ["the backend is an arbitrary per-hash verdict"], ["hundreds of digests with all states symbolic", "512 real workers", "more than 2 preemptive context switches"]),
